@@ -37,7 +37,7 @@ type c10Cell struct {
 	Seed    uint64 `json:"content_seed"`
 }
 
-var c10SrcKinds = []string{"RGBA64", "NRGBA64", "RGBA", "NRGBA", "YCbCr444", "YCbCr422", "YCbCr420", "YCbCr440", "YCbCr411", "YCbCr410", "Gray", "Gray16", "CMYK", "Paletted", "opaque"}
+var c10SrcKinds = []string{"RGBA64", "NRGBA64", "RGBA", "NRGBA", "YCbCr444", "YCbCr422", "YCbCr420", "YCbCr440", "YCbCr411", "YCbCr410", "NYCbCrA", "Gray", "Gray16", "Alpha", "Alpha16", "CMYK", "Paletted", "Uniform", "opaque"}
 var c10DstKinds = []string{"RGBA64", "RGBA", "NRGBA", "NRGBA64", "opaque"}
 var c10Sizes = [][2]int{{0, 0}, {1, 1}, {1, 9}, {11, 1}, {7, 5}, {33, 17}}
 var c10Origins = [][2]int{{0, 0}, {-3, -2}, {5, 9}}
@@ -227,7 +227,7 @@ func c10Cells(seed int64, thorough bool, race bool) []c10Cell {
 		for _, dk := range c10DstKinds {
 			for _, sz := range c10Sizes {
 				for _, o := range c10Origins {
-					if strings.HasPrefix(sk, "YCbCr") && (o[0] < 0 || o[1] < 0) {
+					if (strings.HasPrefix(sk, "YCbCr") || sk == "NYCbCrA") && (o[0] < 0 || o[1] < 0) {
 						o = [2]int{-o[0], -o[1]} // see newSource: YCbCr only at non-negative coordinates
 					}
 					for _, mode := range []string{"same", "larger", "sub", "inplace"} {
@@ -289,7 +289,7 @@ func c10Cells(seed int64, thorough bool, race bool) []c10Cell {
 				for k := 0; k < 8; k++ {
 					mode := []string{"same", "larger", "sub"}[rng.Intn(3)]
 					ox, oy := rng.Range(-50, 50), rng.Range(-50, 50)
-					if strings.HasPrefix(sk, "YCbCr") {
+					if strings.HasPrefix(sk, "YCbCr") || sk == "NYCbCrA" {
 						ox, oy = (ox+50)/2, (oy+50)/2
 					}
 					cells = append(cells, c10Cell{Src: sk, SrcSub: rng.Bool(), Dst: dk, W: rng.Range(1, 40), H: rng.Range(1, 40), OX: ox, OY: oy, DstMode: mode, Par: rng.Range(1, 24), Fn: core.Pick(rng, append([]string{"hash"}, fns...)), Seed: rng.U64()})
